@@ -188,7 +188,7 @@ func (n *hNode) path() string {
 }
 
 var hDescs = []string{"", "one line", "50% of %s done, 100%d", "%", "first line\nsecond line", "with (parens) and $VAR", "a\n\nb", "  padded  ", "x\n  indented cont", "ends with colon:", "Options are nice"}
-var hEnvs = []string{"", "E1", "E1 E2", "  E1   E2  E3 ", " ", "E_SET"}
+var hEnvs = []string{"", "E1", "E1 E2", "  E1   E2  E3 ", " ", "E_SET", "E1,E2", "E1\tE2"} // names are separated by white space only
 
 // genHelpNode draws declarations for one command and records the rows its help must show
 func genHelpNode(r *rand.Rand, name string, depth int, parent *hNode, version bool) *hNode {
@@ -270,7 +270,7 @@ func genHelpNode(r *rand.Rand, name string, depth int, parent *hNode, version bo
 				def = "true"
 			}
 		case 1:
-			v := []string{"", "str", "with space", "q\"uote", "50%", "%d %s", "a\\b", " ", "\t"}[r.Intn(9)] // shown %q-quoted, verbatim otherwise
+			v := []string{"", "str", "with space", "q\"uote", "50%", "%d %s", "a\\b", " ", "\t", "Kraków", "日本語"}[r.Intn(11)] // shown %q-quoted, verbatim otherwise
 			decls = append(decls, func(c *cli.Cmd) { c.String(cli.StringOpt{Name: name, Desc: d, EnvVar: e, Value: v, HideValue: hide}) })
 			if v != "" {
 				def = fmt.Sprintf("%q", v)
@@ -285,7 +285,15 @@ func genHelpNode(r *rand.Rand, name string, depth int, parent *hNode, version bo
 			def = fmt.Sprintf("%v", v)
 		case 4:
 			v := [][]string{nil, {}, {"a"}, {"a", "b c"}, {"100%", "%v"}, {"C:\\tmp", "say \"hi\"", "tab\there"}, {" "}}[r.Intn(7)]
-			decls = append(decls, func(c *cli.Cmd) { c.Strings(cli.StringsOpt{Name: name, Desc: d, EnvVar: e, Value: v, HideValue: hide}) })
+			if v == nil && r.Intn(2) == 0 {
+				// the *Ptr entry point with a destination that holds something else: no default was declared, none is shown
+				decls = append(decls, func(c *cli.Cmd) {
+					dest := []string{"stale"}
+					c.StringsPtr(&dest, cli.StringsOpt{Name: name, Desc: d, EnvVar: e, Value: v, HideValue: hide})
+				})
+			} else {
+				decls = append(decls, func(c *cli.Cmd) { c.Strings(cli.StringsOpt{Name: name, Desc: d, EnvVar: e, Value: v, HideValue: hide}) })
+			}
 			if len(v) > 0 {
 				var q []string
 				for _, x := range v {
@@ -304,7 +312,7 @@ func genHelpNode(r *rand.Rand, name string, depth int, parent *hNode, version bo
 				def = "[" + strings.Join(q, ", ") + "]"
 			}
 		default:
-			v := [][]float64{nil, {1.5}, {1, 2.5}, {0.5, 1e7, 3e-9}}[r.Intn(4)]
+			v := [][]float64{nil, {1.5}, {1, 2.5}, {0.5, 1e7, 3e-9}, {0.123456789012, 2.718281828459045}}[r.Intn(5)]
 			decls = append(decls, func(c *cli.Cmd) {
 				c.Floats64(cli.Floats64Opt{Name: name, Desc: d, EnvVar: e, Value: v, HideValue: hide})
 			})
@@ -337,7 +345,11 @@ func genHelpNode(r *rand.Rand, name string, depth int, parent *hNode, version bo
 			// a user-defined value type as argument: String() is its default, HideValue hides it
 			txt := []string{"", "cv-arg", "[]"}[r.Intn(3)]
 			decls = append(decls, func(c *cli.Cmd) {
-				c.Var(cli.VarArg{Name: nm, Desc: d, EnvVar: e, Value: &c17Plain{txt}, HideValue: hide})
+				if e == "" && !hide && len(nm)%2 == 1 {
+					c.VarArg(nm, &c17Plain{txt}, d) // the short form takes (name, value, description)
+				} else {
+					c.Var(cli.VarArg{Name: nm, Desc: d, EnvVar: e, Value: &c17Plain{txt}, HideValue: hide})
+				}
 			})
 			if !hide && txt != "" {
 				dv = "(default " + txt + ")"
